@@ -238,3 +238,19 @@ def any_profile(reopen_ok=False, weights=None, with_manydirs=False):
     total = sum(w.values())
     hyb = hybrid(reopen_ok=reopen_ok).map(lambda p: dict(p, profile='hybrid'))
     return st.one_of(*([base] * max(1, total // max(nh, 1) // 2) + [hyb])) if nh else base
+
+
+def biglinks(cfg=None, reopen_ok=True):
+    """Link/unlink/remove interleavings inside directories that span several sectors, with
+    records of different lengths (so that a removal in one sector leaves the later sectors'
+    layout unchanged): 45-110 files with mixed name sizes in one or two directories, then
+    hard links, rm_hard_link, rm_file, more adds, optional reopen."""
+    c = cfg if cfg is not None else cfg_st()
+    first = st.lists(add_dir(d=st.just(0), rsz=st.integers(0, 1)), min_size=0, max_size=1)
+    fill = st.lists(add_fp(d=st.sampled_from([0, 1, 1]), length=st.sampled_from([0, 1, 1, 300, 2049]), rsz=st.integers(0, 2), file=st.just(False)),
+                    min_size=45, max_size=110)
+    body_choices = [rm_link, rm_link, rm_file, rm_file, add_link, add_link, add_fp(d=st.sampled_from([0, 1]), length=st.sampled_from([0, 1, 300])), write, query, rm_sym, add_sym]
+    if reopen_ok:
+        body_choices.append(reopen)
+    body = st.lists(st.one_of(*body_choices), min_size=6, max_size=30)
+    return program(c, st.builds(lambda a, f, b: a + f + b, first, fill, body))
